@@ -6,10 +6,11 @@ does not resolve to it and is reported as not found."
 
 All theorems are about the model (`TgModel/Ide/Scope.lean`, `Context.lean`, `Index.lean`, `Bang.lean`).
 -/
-import TgModel.Lemmas.IdeSemScope
+import TgModel.Lemmas.IdeSemFresh
+import TgModel.Props.C03
 
 namespace Tg.C05
-open Tg Tg.Ide
+open Tg Tg.Ide Tg.Bodied
 
 
 /-! ## (1) lookup order -/
@@ -446,5 +447,220 @@ example : (Index.indexIdentifierValue idNode).run (IndexCtx.new exWs) =
   simp [this]
   rfl
 
+
+/-! ## (3′) the balance theorems without assumptions
+
+For a workspace built by `buildWorkspace` every tree is *bodied* (`buildWorkspace_bodied`: every
+`Foreach` has its `StatementList`, every `Def` its `RecordBody`, every `Defm` its `ParentClassList`,
+… — a must-analysis of the parser DSL, `Lemmas/IdeSemShape.lean`), the knot `Index.mkRec fuel`
+respects the scope discipline for every `fuel` (`mkRec_w`), and hence: -/
+
+/-- the nodes of the files of a workspace -/
+def WsNode (ws : Workspace) (n : PTree) : Prop :=
+  ∃ f d, SDesc (Cursor.root (ws.tree f)) d ∧ d.here = n
+
+theorem WsNode.bodied {ws : Workspace} (hb : ws.AllBodied) {n : PTree} (h : WsNode ws n) : PBodied n := by
+  obtain ⟨f, d, hd, rfl⟩ := h
+  exact hd.bodied (hb f)
+
+/-- the statements that open no scope of their own for the rest of the enclosing block: everything
+except `defvar` (declares into the current scope), `defset` (its defvars are declared into the
+enclosing scope) and `include` (the included file's top-level defvars are declared into the current
+scope) -/
+def restoresExactly (k : SyntaxKind) : Bool :=
+  k != .Defvar && k != .Defset && k != .Include
+
+theorem indexStatement_exact {ws : Workspace} (hb : ws.AllBodied) {r : Rec} (hr : RecW ws r) (n : PTree)
+    (hn : PBodied n) (hnode : n.isNode = true) (hk : restoresExactly n.kind = true) :
+    Keeps (WEq ws) (Index.indexStatement r n) := by
+  unfold Index.indexStatement
+  split
+  · rename_i h; rw [h] at hk; cases hk
+  · exact Index.indexAssert_keeps hr.value hr.typ n
+  · exact indexClass_w hr n
+  · exact indexDef_w hr n hn hnode ‹_›
+  · exact indexDefm_w hr n hn hnode ‹_›
+  · rename_i h; rw [h] at hk; cases hk
+  · rename_i h; rw [h] at hk; cases hk
+  · exact Index.indexDump_keeps hr.value hr.typ n
+  · exact indexForeach_w hr n hn hnode ‹_›
+  · exact indexIf_w hr n hn
+  · exact indexLet_w hr n hn
+  · exact indexMultiClass_w hr n hn
+  · exact Keeps.pure _
+
+/-- **every statement restores the scope stack**: on a workspace built by `buildWorkspace`, for
+every fuel, every statement node `n` of any file, and every context in that workspace: a successful
+`indexStatement` leaves the scope stack as it was up to variables declared into the innermost
+non-defset scope (`ScopesExt`); and exactly as it was unless `n` is a `defvar`, `defset` or
+`include` -/
+theorem statement_restores_scopes {vfs : List (String × String)} {rootPath : String} {inc : Option String}
+    {ws : Workspace} (hws : buildWorkspace vfs rootPath inc = .ok ws) (fuel : Nat) (n : PTree)
+    (hn : WsNode ws n) (hnode : n.isNode = true) (c c' : IndexCtx) (a : Unit) (hc : c.ws = ws)
+    (hrun : (Index.indexStatement (Index.mkRec fuel) n).run c = .ok (a, c')) :
+    c'.ws = ws ∧ ScopesExt c.scopes c'.scopes ∧ (restoresExactly n.kind = true → c'.scopes = c.scopes) := by
+  have hb := buildWorkspace_bodied hws
+  have hr := mkRec_w hb fuel
+  have hnb := hn.bodied hb
+  obtain ⟨h1, h2⟩ := (indexStatement_w hr hb n hnb hnode).run c a c' hrun hc
+  exact ⟨h1, h2, fun hk => ((indexStatement_exact hb hr n hnb hnode hk).run c a c' hrun hc).2⟩
+
+/-- the same for a whole statement list (a block body, a file) -/
+theorem statement_list_restores_scopes {vfs : List (String × String)} {rootPath : String}
+    {inc : Option String} {ws : Workspace} (hws : buildWorkspace vfs rootPath inc = .ok ws) (fuel : Nat)
+    (n : PTree) (hn : WsNode ws n) (c c' : IndexCtx) (a : Unit) (hc : c.ws = ws)
+    (hrun : (Index.indexStatementList (Index.mkRec fuel) n).run c = .ok (a, c')) :
+    c'.ws = ws ∧ ScopesExt c.scopes c'.scopes := by
+  have hb := buildWorkspace_bodied hws
+  exact (indexStatementList_w (mkRec_w hb fuel) hb n (hn.bodied hb)).run c a c' hrun hc
+
+/-- a stack that extends the initial one is a single root scope -/
+theorem scopesExt_root {s : Scopes} (h : ScopesExt {} s) :
+    ∃ vars, s = { scopes := [{ kind := .root, nameToVariable := vars }] } := by
+  obtain ⟨l⟩ := s
+  unfold ScopesExt at h
+  simp only at h
+  cases l with
+  | nil => simp [ScopesExtL] at h
+  | cons x t =>
+    obtain ⟨k, vars⟩ := x
+    simp only [ScopesExtL, Scopes.isDefsetKind, Bool.false_eq_true, if_false] at h
+    obtain ⟨hk, ht⟩ := h
+    subst ht
+    cases hk
+    exact ⟨vars, rfl⟩
+
+/-- **the indexer ends at the root scope**: when the run that `Index.index` performs succeeds, the
+scope stack of the final context is the single root scope (holding the top-level `defvar`s) -/
+theorem index_ends_at_root_scope {vfs : List (String × String)} {rootPath : String} {inc : Option String}
+    {ws : Workspace} (hws : buildWorkspace vfs rootPath inc = .ok ws) (res : Index.IndexResult)
+    (h : Index.index ws = .ok res) :
+    ∃ sf ctx, Ast.sourceFileCast (ws.tree ws.root) = some sf ∧
+      (Index.indexSourceFile (Index.mkRec ws.depthBound) sf).run (IndexCtx.new ws) = .ok ((), ctx) ∧
+      res.symbolMap = ctx.symbolMap ∧ res.diagnostics = ctx.diagnostics ∧
+      ∃ vars, ctx.scopes = { scopes := [{ kind := .root, nameToVariable := vars }] } := by
+  have hb := buildWorkspace_bodied hws
+  unfold Index.index at h
+  split at h
+  · cases h
+  · rename_i sf hsf
+    split at h
+    · cases h
+    · rename_i u ctx hrun
+      cases h
+      refine ⟨sf, ctx, hsf, hrun, rfl, rfl, ?_⟩
+      have hsfb : PBodied sf := by rw [sourceFileCast_eq hsf]; exact hb _
+      have := (indexSourceFile_w hb (mkRec_w hb ws.depthBound) sf hsfb).run _ _ _ hrun rfl
+      exact scopesExt_root this.2
+
+
+/-! ## "A name used after the construct that declared it has ended does not resolve to it"
+
+Variables are identified by their id (allocation index).  `ScopeIdsOK`: every id the scope stack
+binds has been allocated (an invariant of the indexer).  If a construct is balanced (the scope stack
+after it is the scope stack before it), every variable allocated during its run — in particular
+every variable declared while the scope it pushed was on the stack — is not bound afterwards, and
+never becomes bound again: the window of its ids is `Sealed`, and every function of the indexer
+keeps a sealed window sealed. -/
+
+/-- every variable id bound by the scope stack has been allocated -/
+def ScopeIdsOK (c : IndexCtx) : Prop := BInv 0 (fun _ => True) c
+
+/-- none of the variable ids `lo ≤ v < hi` (all allocated) is bound by the scope stack -/
+def Sealed (lo hi : Nat) (c : IndexCtx) : Prop := BInv hi (fun v => v < lo ∨ hi ≤ v) c
+
+theorem scopeIdsOK_new (ws : Workspace) : ScopeIdsOK (IndexCtx.new ws) := by
+  refine ⟨Nat.zero_le _, fun v hv => ?_⟩
+  obtain ⟨sc, hsc, hb⟩ := hv
+  have : sc = { kind := .root } := by simpa [IndexCtx.new] using hsc
+  subst this
+  rcases hb with ⟨n, hn⟩ | ⟨nm, hk⟩
+  · simp at hn
+  · cases hk
+
+/-- every function of the indexer keeps `ScopeIdsOK` and every sealed window sealed -/
+theorem indexer_keeps_scopeIdsOK (fuel : Nat) (n : PTree) (c c' : IndexCtx) (a : Unit)
+    (h : ((Index.mkRec fuel).statementList n).run c = .ok (a, c')) (hc : ScopeIdsOK c) : ScopeIdsOK c' :=
+  (((mkRec_brel (T := 0) (Good := fun _ => True) (fun _ _ => trivial) fuel).2.2.1 n).run c a c' h).2 hc
+
+theorem sealed_good (lo hi : Nat) : ∀ v, hi ≤ v → (v < lo ∨ hi ≤ v) := fun _ h => Or.inr h
+
+theorem sealed_kept_statementList (lo hi fuel : Nat) (n : PTree) (c c' : IndexCtx) (a : Unit)
+    (h : ((Index.mkRec fuel).statementList n).run c = .ok (a, c')) (hc : Sealed lo hi c) : Sealed lo hi c' :=
+  (((mkRec_brel (sealed_good lo hi) fuel).2.2.1 n).run c a c' h).2 hc
+
+theorem sealed_kept_value (lo hi fuel : Nat) (n : PTree) (c c' : IndexCtx) (a : Option Ty)
+    (h : ((Index.mkRec fuel).value n).run c = .ok (a, c')) (hc : Sealed lo hi c) : Sealed lo hi c' :=
+  (((mkRec_brel (sealed_good lo hi) fuel).1 n).run c a c' h).2 hc
+
+theorem sealed_kept_statement (lo hi fuel : Nat) (n : PTree) (c c' : IndexCtx) (a : Unit)
+    (h : (Index.indexStatement (Index.mkRec fuel) n).run c = .ok (a, c')) (hc : Sealed lo hi c) :
+    Sealed lo hi c' := by
+  haveI := BRel.varRel (sealed_good lo hi)
+  haveI := BRel.blockRel (sealed_good lo hi)
+  obtain ⟨hv, ht, hsl, hsf⟩ := mkRec_brel (sealed_good lo hi) fuel
+  exact ((Index.indexStatement_keeps hv ht hsl hsf n).run c a c' h).2 hc
+
+/-- in a context where the window is sealed, no name resolves to a variable of the window -/
+theorem sealed_not_found {lo hi : Nat} {c : IndexCtx} (hc : Sealed lo hi c) (v : Nat) (h1 : lo ≤ v) (h2 : v < hi)
+    (sm : SymMap) (name : String) : c.scopes.findLocal sm name ≠ some (.var v) := by
+  intro hf
+  rcases (hc.2 v (findLocal_var_binds hf)).2 with h | h <;> omega
+
+/-- after a balanced construct, the variables allocated during its run are sealed -/
+theorem sealed_after_balanced {c c' : IndexCtx} (hids : ScopeIdsOK c) (hsc : c'.scopes = c.scopes)
+    (hle : vsize c ≤ vsize c') : Sealed (vsize c) (vsize c') c' := by
+  refine ⟨Nat.le_refl _, fun v hv => ?_⟩
+  rw [hsc] at hv
+  have := (hids.2 v hv).1
+  exact ⟨by omega, Or.inl this⟩
+
+/-- **a name used after the construct that declared it has ended does not resolve to it**: on a
+workspace built by `buildWorkspace`, after a statement that opens its own scopes (`restoresExactly`:
+class, def, defm, foreach, if, let, multiclass, …) has been indexed, every variable that was declared
+during its run (`vsize c ≤ v < vsize c'`: the loop variable, the `defvar`s of its body, `!foreach`
+variables, …) is unreachable: `find_local` does not return it in the context after the statement, nor
+in any context reached from there by indexing further statements, statement lists or values. -/
+theorem name_after_block_not_resolved {vfs : List (String × String)} {rootPath : String}
+    {inc : Option String} {ws : Workspace} (hws : buildWorkspace vfs rootPath inc = .ok ws) (fuel : Nat)
+    (n : PTree) (hn : WsNode ws n) (hnode : n.isNode = true) (hk : restoresExactly n.kind = true)
+    (c c' : IndexCtx) (a : Unit) (hc : c.ws = ws) (hids : ScopeIdsOK c)
+    (hrun : (Index.indexStatement (Index.mkRec fuel) n).run c = .ok (a, c')) :
+    Sealed (vsize c) (vsize c') c' ∧
+    (∀ v, vsize c ≤ v → v < vsize c' → ∀ sm name, c'.scopes.findLocal sm name ≠ some (.var v)) ∧
+    (∀ fuel' n' c'' a', (Index.indexStatement (Index.mkRec fuel') n').run c' = .ok (a', c'') →
+      ∀ v, vsize c ≤ v → v < vsize c' → ∀ sm name, c''.scopes.findLocal sm name ≠ some (.var v)) := by
+  obtain ⟨_, _, hex⟩ := statement_restores_scopes hws fuel n hn hnode c c' a hc hrun
+  have hle : vsize c ≤ vsize c' := by
+    haveI := BRel.varRel (T := 0) (Good := fun _ => True) (fun _ _ => trivial)
+    haveI := BRel.blockRel (T := 0) (Good := fun _ => True) (fun _ _ => trivial)
+    obtain ⟨hv, ht, hsl, hsf⟩ := mkRec_brel (T := 0) (Good := fun _ => True) (fun _ _ => trivial) fuel
+    exact ((Index.indexStatement_keeps hv ht hsl hsf n).run c a c' hrun).1
+  have hs := sealed_after_balanced hids (hex hk) hle
+  refine ⟨hs, fun v h1 h2 sm name => sealed_not_found hs v h1 h2 sm name, ?_⟩
+  intro fuel' n' c'' a' hrun' v h1 h2 sm name
+  exact sealed_not_found (sealed_kept_statement _ _ fuel' n' c' c'' a' hrun' hs) v h1 h2 sm name
+
+
+/-! ### non-vacuity of (3′) -/
+
+def isOkE {ε α : Type} : Except ε α → Bool
+  | .ok _ => true
+  | .error _ => false
+
+def exVfs : List (String × String) :=
+  [("/w/a.td", "foreach i = [1, 2] in { defvar v = i; }\nif 1 then { def x; }\ndefvar top = 1;")]
+
+set_option maxRecDepth 100000 in
+/-- the hypotheses of `statement_restores_scopes` / `index_ends_at_root_scope` are satisfiable: this
+source (a `foreach` with a `defvar` in its body, an `if`, a top-level `defvar`) builds, and its
+index run succeeds (C03) -/
+example : ∃ ws res, buildWorkspace exVfs "/w/a.td" none = .ok ws ∧ Index.index ws = .ok res := by
+  have h : isOkE (buildWorkspace exVfs "/w/a.td" none) = true := by decide +kernel
+  cases hws : buildWorkspace exVfs "/w/a.td" none with
+  | error e => rw [hws] at h; cases h
+  | ok ws =>
+    obtain ⟨res, hres⟩ := Tg.C03.index_never_panics _ _ _ ws hws
+    exact ⟨ws, res, rfl, hres⟩
 
 end Tg.C05
